@@ -28,22 +28,14 @@ impl Emitter for LvlEmitter {
     fn blocking_flush(&self, _: core::time::Duration) -> bool { true }
 }
 
-fn sym_lvl() -> Option<usize> {
-    if kani::any() { let k: usize = kani::any(); kani::assume(k < 4); Some(k) } else { None }
-}
-
-#[kani::proof]
-#[kani::unwind(8)]
-pub fn c05_q_macro_hook_panic_level() {
+fn body(via_hook: bool) {
     let panicking: bool = kani::any();
     unsafe { emit::span::VERIF_PANICKING = panicking as u32; }
-    let lvl = sym_lvl();
-    let panic_lvl = sym_lvl();
+    // presence of each level symbolic, the values fixed (info / warn): keeps the trace-producing replay run in memory
+    let l: Option<Level> = if kani::any() { Some(Level::Info) } else { None };
+    let pl: Option<Level> = if kani::any() { Some(Level::Warn) } else { None };
     let em = LvlEmitter { calls: Cell::new(0), lvl: Cell::new(None), has_err: Cell::new(false) };
     let rt = Runtime::build(&em, Empty, Empty, Empty, Empty);
-    let l = lvl.map(|k| LEVELS[k]);
-    let pl = panic_lvl.map(|k| LEVELS[k]);
-    let via_hook: bool = kani::any();
     let span = Span::new(Path::new_raw("m"), "s", Empty, Empty);
     if via_hook {
         let c = emit::__private::__private_complete_span(&rt, emit::Template::literal("s"), l.as_ref(), pl.as_ref());
@@ -62,7 +54,16 @@ pub fn c05_q_macro_hook_panic_level() {
         assert!(!em.has_err.get());
         assert!(em.lvl.get() == l, "otherwise the configured level, if any");
     }
-    kani::cover!(panicking && lvl.is_some() && panic_lvl.is_some() && via_hook, "levelled span macro with panic_lvl, panicking");
-    kani::cover!(!panicking && lvl.is_none(), "plain completion");
+    kani::cover!(panicking && l.is_some() && pl.is_some(), "levelled span with panic_lvl, panicking");
+    kani::cover!(!panicking && l.is_none(), "plain completion");
 }
 
+/// through the hook the span macros expand to
+#[kani::proof]
+#[kani::unwind(8)]
+pub fn c05_q_macro_hook_panic_level() { body(true); }
+
+/// through `completion::Default` directly
+#[kani::proof]
+#[kani::unwind(8)]
+pub fn c05_q_default_completion_panic_level() { body(false); }
